@@ -1,6 +1,6 @@
 (* C05 statements in the self-contained form pinned in Properties/C05.v *)
 From SC Require Import Lib.Prelude Lib.Int Lib.Host Model.Math Proofs.Math Model.Vault
-  Proofs.VaultSpec Proofs.VaultToken Proofs.VaultOps Proofs.VaultRate Proofs.VaultTrips.
+  Proofs.VaultSpec Proofs.VaultToken Proofs.VaultOps Proofs.VaultRate Proofs.VaultTrips Proofs.VaultLive.
 From Coq Require Import ZifyBool.
 
 (* ---------- formula ---------- *)
@@ -13,7 +13,7 @@ Lemma spec_conv_unfold P x num den rd :
          else Fail.
 Proof. reflexivity. Qed.
 
-Lemma formula_final c s x : MIN128 <= x <= MAX128 ->
+Lemma formula_final c s x : v_asset s = Some ASSET_ADDR -> v_off s = Some (c_off c) -> MIN128 <= x <= MAX128 ->
   let A := total_assets s in let S := total_supply s in let P := 10 ^ c_off c in
   convert_to_shares c s x = spec_conv P x (S + P) (A + 1) Floor /\
   preview_deposit c s x = spec_conv P x (S + P) (A + 1) Floor /\
@@ -22,8 +22,9 @@ Lemma formula_final c s x : MIN128 <= x <= MAX128 ->
   preview_redeem c s x = spec_conv P x (A + 1) (S + P) Floor /\
   preview_mint c s x = spec_conv P x (A + 1) (S + P) Ceil.
 Proof.
-  intros Hx A S P. unfold convert_to_shares, preview_deposit, preview_withdraw, convert_to_assets, preview_redeem, preview_mint.
-  repeat split; first [apply to_shares_spec; exact Hx | apply to_assets_spec; exact Hx].
+  intros Hva Hvo Hx A S P. assert (Hst : Stored c s) by (split; assumption).
+  unfold convert_to_shares, preview_deposit, preview_withdraw, convert_to_assets, preview_redeem, preview_mint.
+  repeat split; first [apply to_shares_spec; assumption | apply to_assets_spec; assumption].
 Qed.
 
 Lemma exact_pos_final n d : 0 < d ->
@@ -32,21 +33,21 @@ Lemma exact_pos_final n d : 0 < d ->
 Proof. intros Hd. split; [apply floor_pos|apply ceil_pos]; exact Hd. Qed.
 
 (* ---------- reachable states ---------- *)
-Lemma reach c n0 cs : 0 <= c_off c -> forallb wf_call cs = true -> Inv (run c (init n0) cs).
+Lemma reach c n0 cs : 0 <= c_off c -> forallb wf_call cs = true -> Inv c (run c (init c n0) cs).
 Proof. intros. apply reachable_inv; auto. Qed.
 
 Lemma max_formula_final c n0 cs o : 0 <= c_off c -> forallb wf_call cs = true ->
-  let s := run c (init n0) cs in
+  let s := run c (init c n0) cs in
   let A := total_assets s in let S := total_supply s in let P := 10 ^ c_off c in
   max_withdraw c s o = spec_conv P (bal (share s) o) (A + 1) (S + P) Floor /\
   max_redeem s o = bal (share s) o /\ max_deposit o = MAX128 /\ max_mint o = MAX128.
 Proof.
   intros Hc Hw s A S P. pose proof (reach c n0 cs Hc Hw) as Hi. fold s in Hi.
-  split; [|repeat split]. unfold max_withdraw. apply to_assets_spec. apply tok_inv_bal_range. apply Hi.
+  split; [|repeat split]. unfold max_withdraw. apply to_assets_spec; [apply (Inv_stored c s Hi)|]. apply tok_inv_bal_range. apply Hi.
 Qed.
 
 Lemma rounding_direction_final c n0 cs x : 0 <= c_off c -> forallb wf_call cs = true -> MIN128 <= x <= MAX128 ->
-  let s := run c (init n0) cs in
+  let s := run c (init c n0) cs in
   let A := total_assets s in let S := total_supply s in let P := 10 ^ c_off c in
   0 < A + 1 /\ 0 < S + P /\
   (forall q, preview_deposit c s x = Ok q -> q * (A + 1) <= x * (S + P) < (q + 1) * (A + 1)) /\
@@ -65,7 +66,7 @@ Qed.
 
 (* ---------- rate ---------- *)
 Lemma rate_step_final c n0 cs cl : 0 <= c_off c -> forallb wf_call cs = true -> wf_call cl = true ->
-  let s := run c (init n0) cs in let s' := fst (step c s cl) in let P := 10 ^ c_off c in
+  let s := run c (init c n0) cs in let s' := fst (step c s cl) in let P := 10 ^ c_off c in
   (total_assets s + 1) * (total_supply s' + P) <= (total_assets s' + 1) * (total_supply s + P).
 Proof.
   intros Hc Hw Hcl s s' P. pose proof (reach c n0 cs Hc Hw) as Hi.
@@ -73,13 +74,13 @@ Proof.
 Qed.
 
 Lemma rate_history_final c n0 cs1 cs2 : 0 <= c_off c -> forallb wf_call cs1 = true -> forallb wf_call cs2 = true ->
-  let s := run c (init n0) cs1 in let s' := run c (init n0) (cs1 ++ cs2) in let P := 10 ^ c_off c in
+  let s := run c (init c n0) cs1 in let s' := run c (init c n0) (cs1 ++ cs2) in let P := 10 ^ c_off c in
   (total_assets s + 1) * (total_supply s' + P) <= (total_assets s' + 1) * (total_supply s + P).
 Proof. intros Hc H1 H2 s s' P. apply (rate_monotone c n0 cs1 cs2); auto. Qed.
 
 (* ---------- round trips ---------- *)
 Lemma round_trips_final c n0 cs : 0 <= c_off c -> forallb wf_call cs = true ->
-  let s := run c (init n0) cs in
+  let s := run c (init c n0) cs in
   (forall a r f o au s1 sh e1 x r' ow o' au' s2 a' e2,
      wf_call (Deposit a r f o au) = true -> wf_call (Redeem x r' ow o' au') = true ->
      step c s (Deposit a r f o au) = (s1, Ok (sh, e1)) -> x <= sh ->
@@ -111,7 +112,7 @@ Qed.
 
 Lemma profit_bounded_final c n0 cs0 a r f o au s1 sh e1 cs x r' ow o' au' s3 a' e2 :
   0 <= c_off c -> forallb wf_call cs0 = true ->
-  let s := run c (init n0) cs0 in let P := 10 ^ c_off c in
+  let s := run c (init c n0) cs0 in let P := 10 ^ c_off c in
   wf_call (Deposit a r f o au) = true -> forallb wf_call cs = true -> wf_call (Redeem x r' ow o' au') = true ->
   step c s (Deposit a r f o au) = (s1, Ok (sh, e1)) -> x <= sh ->
   step c (run c s1 cs) (Redeem x r' ow o' au') = (s3, Ok (a', e2)) ->
@@ -151,7 +152,7 @@ Definition dep_moves (s s' : state) (au : auths) (evs : list event) (assets shar
      if negb (N.eqb o f) && (N.eqb o' f && N.eqb sp o)
      then allowance (now s) (asset s) o' sp - assets else allowance (now s) (asset s) o' sp) /\
   evs = [(0%N, o, f, r, assets, shares)] /\ auth_root au o = true /\ auth_full au o = true /\
-  0 <= assets <= bal (asset s) f /\ 0 <= shares.
+  0 <= assets <= bal (asset s) f /\ 0 <= shares /\ v_asset s' = v_asset s /\ v_off s' = v_off s.
 
 Definition wd_moves (s s' : state) (au : auths) (evs : list event) (assets shares : Z) (r ow o : addr) : Prop :=
   now s' = now s /\
@@ -163,19 +164,32 @@ Definition wd_moves (s s' : state) (au : auths) (evs : list event) (assets share
      if negb (N.eqb o ow) && (N.eqb o' ow && N.eqb sp o)
      then allowance (now s) (share s) o' sp - shares else allowance (now s) (share s) o' sp) /\
   evs = [(1%N, o, r, ow, assets, shares)] /\ auth_root au o = true /\
-  0 <= shares <= bal (share s) ow /\ 0 <= assets <= bal (asset s) V.
+  0 <= shares <= bal (share s) ow /\ 0 <= assets <= bal (asset s) V /\ v_asset s' = v_asset s /\ v_off s' = v_off s.
 
 Lemma dep_moves_of s s' au evs a sh r f o :
   deposit_effect s s' a sh r f o -> evs = [(0%N, o, f, r, a, sh)] -> auth_root au o = true -> auth_full au o = true ->
-  0 <= a <= bal (asset s) f -> 0 <= sh -> dep_moves s s' au evs a sh r f o.
+  0 <= a <= bal (asset s) f -> 0 <= sh -> v_asset s' = v_asset s -> v_off s' = v_off s -> dep_moves s s' au evs a sh r f o.
 Proof.
-  intros He Hev Hr Hf Ha Hsh. destruct He. unfold dep_moves. repeat split; auto; lia.
+  intros He Hev Hr Hf Ha Hsh Hva Hvo. destruct He. unfold dep_moves. repeat split; auto; lia.
 Qed.
 Lemma wd_moves_of s s' au evs a sh r ow o :
   withdraw_effect s s' a sh r ow o -> evs = [(1%N, o, r, ow, a, sh)] -> auth_root au o = true ->
-  0 <= sh <= bal (share s) ow -> 0 <= a <= total_assets s -> wd_moves s s' au evs a sh r ow o.
+  0 <= sh <= bal (share s) ow -> 0 <= a <= total_assets s -> v_asset s' = v_asset s -> v_off s' = v_off s ->
+  wd_moves s s' au evs a sh r ow o.
 Proof.
-  intros He Hev Hr Hsh Ha. destruct He. unfold wd_moves, total_assets in *. repeat split; auto; lia.
+  intros He Hev Hr Hsh Ha Hva Hvo. destruct He. unfold wd_moves, total_assets in *. repeat split; auto; lia.
+Qed.
+
+Lemma deposit_internal_cfg c s au r a sh f o s' : deposit_internal c s au r a sh f o = Ok s' ->
+  v_asset s' = v_asset s /\ v_off s' = v_off s.
+Proof.
+  unfold deposit_internal. intros H. bsplit H uc Ec. bsplit H a1 E1. bsplit H s1 E2. inversion H; subst. split; reflexivity.
+Qed.
+Lemma withdraw_internal_cfg c s r ow a sh o s' : withdraw_internal c s r ow a sh o = Ok s' ->
+  v_asset s' = v_asset s /\ v_off s' = v_off s.
+Proof.
+  unfold withdraw_internal. intros H. bsplit H s0 E0. bsplit H s1 E1. bsplit H uc Ec. bsplit H a1 E2.
+  inversion H; subst. split; reflexivity.
 Qed.
 
 Lemma moves_exactly_final c s cl s' v evs : step c s cl = (s', Ok (v, evs)) ->
@@ -190,16 +204,16 @@ Proof.
   intros H. apply step_ok_inv in H. destruct cl; cbn [step_res] in H; auto.
   - unfold deposit in H. bsplit H u E0. apply guard_ok in E0. bsplit H u1 E1. bsplit H sh E2. bsplit H s0 E3.
     inversion H; subst. destruct (deposit_internal_effect _ _ _ _ _ _ _ _ _ E3) as (He & Hau & Ha & Hsh).
-    apply dep_moves_of; auto.
+    destruct (deposit_internal_cfg _ _ _ _ _ _ _ _ _ E3). apply dep_moves_of; auto.
   - unfold mint in H. bsplit H u E0. apply guard_ok in E0. bsplit H u1 E1. bsplit H a0 E2. bsplit H s0 E3.
     inversion H; subst. destruct (deposit_internal_effect _ _ _ _ _ _ _ _ _ E3) as (He & Hau & Ha & Hsh).
-    apply dep_moves_of; auto.
+    destruct (deposit_internal_cfg _ _ _ _ _ _ _ _ _ E3). apply dep_moves_of; auto.
   - unfold withdraw in H. bsplit H u E0. apply guard_ok in E0. bsplit H m E1. bsplit H u1 E2. bsplit H sh E3. bsplit H s0 E4.
     inversion H; subst. destruct (withdraw_internal_effect _ _ _ _ _ _ _ _ E4) as (He & Hsh & Ha).
-    apply wd_moves_of; auto.
+    destruct (withdraw_internal_cfg _ _ _ _ _ _ _ _ E4). apply wd_moves_of; auto.
   - unfold redeem in H. bsplit H u E0. apply guard_ok in E0. bsplit H u1 E2. bsplit H a0 E3. bsplit H s0 E4.
     inversion H; subst. destruct (withdraw_internal_effect _ _ _ _ _ _ _ _ E4) as (He & Hsh & Ha).
-    apply wd_moves_of; auto.
+    destruct (withdraw_internal_cfg _ _ _ _ _ _ _ _ E4). apply wd_moves_of; auto.
 Qed.
 
 Lemma move_spec_final (m : bmap) f t x :
@@ -224,7 +238,7 @@ Qed.
 
 (* ---------- within means ---------- *)
 Lemma within_means_final c n0 cs ow a m : 0 <= c_off c -> forallb wf_call cs = true ->
-  let s := run c (init n0) cs in
+  let s := run c (init c n0) cs in
   max_withdraw c s ow = Ok m -> 0 <= a <= m ->
   exists sh, preview_withdraw c s a = Ok sh /\ 0 <= sh <= bal (share s) ow /\ a <= total_assets s.
 Proof.
@@ -233,13 +247,13 @@ Qed.
 
 (* ---------- accounting invariant on every reachable state ---------- *)
 Lemma accounting_final c n0 cs : 0 <= c_off c -> forallb wf_call cs = true ->
-  let s := run c (init n0) cs in
+  let s := run c (init c n0) cs in
   (forall a, 0 <= bal (share s) a <= total_supply s) /\ 0 <= total_supply s <= MAX128 /\
   (forall l, NoDup l -> sum_over (bal (share s)) l <= total_supply s) /\
   (forall a, 0 <= bal (asset s) a) /\ 0 <= total_assets s <= MAX128.
 Proof.
   intros Hc Hw s. pose proof (reach c n0 cs Hc Hw) as Hi. fold s in Hi.
-  pose proof (Inv_A_nonneg s Hi). pose proof (Inv_S_nonneg s Hi).
+  pose proof (Inv_A_nonneg c s Hi). pose proof (Inv_S_nonneg c s Hi).
   destruct Hi as (Ha & Hs & _).
   split; [intros a; apply tok_inv_bal_le; exact Hs|]. split; [assumption|].
   split; [apply Hs|]. split; [apply Ha|assumption].
@@ -250,7 +264,7 @@ Lemma step_of_res c s cl s' o : step_res c s cl = Ok (s', o) -> step c s cl = (s
 Proof. intros H. unfold step. rewrite H. reflexivity. Qed.
 
 Lemma within_means_succeeds_final c n0 cs : 0 <= c_off c -> forallb wf_call cs = true ->
-  let s := run c (init n0) cs in
+  let s := run c (init c n0) cs in
   (forall au a r ow m, auth_root au ow = true -> max_withdraw c s ow = Ok m -> 0 <= a <= m ->
      exists s' sh evs, step c s (Withdraw a r ow ow au) = (s', Ok (sh, evs))) /\
   (forall au x r ow a, auth_root au ow = true -> 0 <= x <= max_redeem s ow -> preview_redeem c s x = Ok a ->
@@ -263,4 +277,78 @@ Proof.
   - intros au x r ow a Hau Hx Hp. unfold max_redeem in Hx.
     destruct (redeem_succeeds c s au x r ow a Hc Hi Hau Hx Hp) as (s' & evs & H).
     exists s', evs. apply step_of_res. exact H.
+Qed.
+
+(* ---------- the constructor and the vault's configuration ---------- *)
+Lemma constructor_final c n0 :
+  construct c n0 = if c_max_off c <? c_off c then Fail
+                   else if in_u32 (c_adec c + c_off c) then Ok (init c n0, c_adec c + c_off c) else Fail.
+Proof.
+  unfold construct, vault_set_asset, vault_set_decimals_offset, blank, vault_decimals, asset_client, query_asset,
+    get_decimals_offset, checked_add_u32, init.
+  cbn [v_asset v_off bind of_option now asset share].
+  destruct (c_max_off c <? c_off c); cbn [negb guard bind v_asset v_off of_option now asset share]; [reflexivity|].
+  change (N.eqb ASSET_ADDR ASSET_ADDR) with true. cbn [guard bind].
+  destruct (in_u32 (c_adec c + c_off c)); reflexivity.
+Qed.
+
+(* the library setters, on any state: once only, and the offset bounded by MAX_DECIMALS_OFFSET *)
+Lemma setters_final c s :
+  (forall a, vault_set_asset s a = match v_asset s with
+                                   | Some _ => Fail
+                                   | None => Ok {| now := now s; asset := asset s; share := share s; v_asset := Some a; v_off := v_off s |}
+                                   end) /\
+  (forall off, vault_set_decimals_offset c s off =
+               if c_max_off c <? off then Fail
+               else match v_off s with
+                    | Some _ => Fail
+                    | None => Ok {| now := now s; asset := asset s; share := share s; v_asset := v_asset s; v_off := Some off |}
+                    end).
+Proof.
+  split; [reflexivity|]. intros off. unfold vault_set_decimals_offset. destruct (c_max_off c <? off); reflexivity.
+Qed.
+
+(* on every reachable state the asset address and the decimals offset are the constructor's, every later
+   set_asset / set_decimals_offset fails, and the getters that depend on them are constant *)
+Lemma config_final c n0 cs : 0 <= c_off c -> forallb wf_call cs = true ->
+  let s := run c (init c n0) cs in
+  v_asset s = Some ASSET_ADDR /\ v_off s = Some (c_off c) /\
+  query_asset s = Ok ASSET_ADDR /\ get_decimals_offset s = c_off c /\
+  total_assets_r s = Ok (total_assets s) /\
+  (forall a, snd (step c s (SetAsset a)) = Fail) /\ (forall off, snd (step c s (SetOffset off)) = Fail).
+Proof.
+  intros Hc Hw s. pose proof (reach c n0 cs Hc Hw) as Hi. fold s in Hi.
+  pose proof (Inv_stored c s Hi) as Hst. destruct Hst as [Hva Hvo].
+  split; [exact Hva|]. split; [exact Hvo|].
+  split; [unfold query_asset; rewrite Hva; reflexivity|].
+  split; [apply (stored_off c s); split; assumption|].
+  split; [apply (stored_total_assets c s); split; assumption|].
+  split.
+  - intros a. unfold step. cbn [step_res]. unfold vault_set_asset. rewrite Hva. reflexivity.
+  - intros off. unfold step. cbn [step_res]. unfold vault_set_decimals_offset. rewrite Hvo.
+    destruct (guard (negb (c_max_off c <? off))); reflexivity.
+Qed.
+
+(* ---------- deposit and mint fail only when they must ---------- *)
+Lemma step_ok_iff c s cl : (exists s' v evs, step c s cl = (s', Ok (v, evs))) <-> (exists s' v evs, step_res c s cl = Ok (s', (v, evs))).
+Proof.
+  split; intros (s' & v & evs & H); exists s', v, evs; [apply step_ok_inv; exact H|apply step_of_res; exact H].
+Qed.
+
+Lemma deposit_mint_iff_final c n0 cs : 0 <= c_off c -> forallb wf_call cs = true ->
+  let s := run c (init c n0) cs in
+  let pull (au : auths) (assets : Z) (f o : addr) :=
+    auth_full au o = true /\ 0 <= assets <= bal (asset s) f /\
+    (o <> f -> 0 <= assets <= allowance (now s) (asset s) f o /\
+               (0 < assets -> snd (allow (asset s) f o) <= now s + c_max_ttl c - 1)) in
+  (forall au a r f o,
+     (exists s' sh evs, step c s (Deposit a r f o au) = (s', Ok (sh, evs))) <->
+     (exists sh, preview_deposit c s a = Ok sh /\ total_supply s + sh <= MAX128 /\ pull au a f o)) /\
+  (forall au x r f o, MIN128 <= x <= MAX128 ->
+     ((exists s' a evs, step c s (MintS x r f o au) = (s', Ok (a, evs))) <->
+      (exists a, preview_mint c s x = Ok a /\ total_supply s + x <= MAX128 /\ pull au a f o))).
+Proof.
+  intros Hc Hw s pull. pose proof (reach c n0 cs Hc Hw) as Hi. fold s in Hi. split.
+  - intros au a r f o. rewrite step_ok_iff. apply (deposit_iff c s au a r f o Hi).
+  - intros au x r f o Hx. rewrite step_ok_iff. apply (mint_iff c s au x r f o Hi Hx).
 Qed.
